@@ -208,7 +208,8 @@ def make_var(name, val, origin=None, kind=None):
     if name == 'b_matrix':
         return sc.spatial.linear_transform(value=val, unit='1/angstrom')
     if name in ('tof', 'wavelength', 'energy', 'Q', 'dspacing'):
-        return sc.array(dims=[name], values=val, unit=UNITS[name])
+        # a dynamic coordinate other than the origin (left over from an earlier conversion) lives on the origin's dim
+        return sc.array(dims=[origin if origin is not None and origin in UNITS else name], values=val, unit=UNITS[name])
     if np.ndim(val) == 0:
         return sc.scalar(float(val), unit=UNITS[name])
     return sc.array(dims=['spectrum'], values=val, unit=UNITS[name])
@@ -625,11 +626,17 @@ def run_config(T: Tables, cfg, model_line, seed):
             'impl': [d_impl, c_impl if isinstance(c_impl, str) else ['ok', *c_impl[1][:3], c_impl[1][3][:64]]],
             'model': detail_model,
         }
-    if kind != 'q':
+    if kind not in ('q', 'y'):
         out['hist'].append(f'extra:{container}:{"ok" if not isinstance(c_impl, str) else c_impl}')
         out['kernels'] = sorted(kernels_used)
         return out
     # --- oracle: the property statement on the real outcome
+    if kind == 'y':
+        # left-over dynamic coordinates (wavelength / energy / Q / dspacing / tof other than origin and target) are
+        # 'coordinates that were present': the documented formulas use them where the documented derivation of the
+        # target passes through them (supplied takes precedence) and ignore them otherwise
+        out['hist'].append('leftover-dynamic:' + '+'.join(extras))
+        present = [*present, *extras]
     exp, why, mode = oracle_expect(origin, target, scatter, present, vals, align)
     out['hist'].append(f'{container}:{"ok" if not isinstance(c_impl, str) else c_impl}:{why}')
     if align[0] == 'shape':
@@ -885,6 +892,30 @@ def extra_configs(ctx, T, targets, n):
     return out
 
 
+DYNAMIC = ('tof', 'wavelength', 'energy', 'Q', 'dspacing')
+
+
+def leftover_configs(ctx, T, targets, n):
+    """inside the statement ('from the coordinates that were present'), outside the 2^11 grid: one or two dynamic
+    coordinates other than origin and target are also on the data, with values INCONSISTENT with the origin (the
+    usual history tof -> wavelength -> energy keeps the consumed coordinates; the origin is then recalibrated)"""
+    rng = ctx.rng
+    out = []
+    idx = 70_000_000
+    for _ in range(n):
+        o = rng.choice(ORIGINS)
+        t = rng.choice([x for x in targets if x != o])
+        pool = [d for d in DYNAMIC if d not in (o, t) and d in T.ncode]
+        ex = tuple(rng.sample(pool, rng.choice([1, 1, 2])))
+        base = rng.choice(HAND_MASKS)
+        m = mask_of(base)
+        if rng.random() < 0.5:
+            m ^= 1 << rng.randrange(9)
+        out.append((idx, o, t, True if rng.random() < 0.8 else False, m, rng.choice(['DataArray', 'Dataset']), ex, 'y', ('all',)))
+        idx += 1
+    return out
+
+
 def model_lines(ctx, T, cfgs):
     extras = ','.join(str(T.ncode[a]) for a in AUX)
     lines = [
@@ -1037,7 +1068,8 @@ def correspond(ctx):
     T, data = _tables(ctx)
     targets = targets_of(T, data)
     check_tables(ctx, T, data, targets)
-    cfgs = configs(ctx, T, targets, origins_of(ctx, data)) + extra_configs(ctx, T, targets, ctx.n(600, 20000))
+    cfgs = configs(ctx, T, targets, origins_of(ctx, data)) + extra_configs(ctx, T, targets, ctx.n(600, 20000)) \
+        + leftover_configs(ctx, T, targets, ctx.n(500, 8000))
     lines = model_lines(ctx, T, cfgs)
     workers = int(os.environ.get('VERIF_WORKERS', '4' if ctx.quick else '12'))
     results = _run(ctx, T, cfgs, lines, workers)
